@@ -51,6 +51,7 @@ class GenCfg:
     p_as_name: float = 0.5
     p_empty_msg: float = 0.04
     allow_empty_enum: bool = False
+    empty_enum_fields: bool = False  # empty enums may be used as field types (C10: the language guide's own example)
     extensible: bool = True  # False -> traditional schema (no ' anywhere)
     big_caps: bool = False
     basename_differs: float = 0.0  # probability that file base name != proto name
@@ -59,6 +60,9 @@ class GenCfg:
     min_messages: int = 1
     hex_enum: float = 0.2
     comments: float = 0.3
+    digit_names: float = 0.0  # probability that a type name ends in a digit
+    keyword_field: float = 0.0  # probability that a message gets a field named `type` (allowed by the grammar)
+    module_options: float = 0.0  # probability of py.module_name / go.package_path options (set to the default values)
     std_signed_only: bool = False  # signed ints only of width 8/16/32/64 (big-endian emulation limit, see DESIGN C06)
 
 
@@ -85,7 +89,7 @@ class SchemaGen:
     def __init__(self, rng: random.Random, cfg: Optional[GenCfg] = None):
         self.rng = rng
         self.cfg = cfg or GenCfg()
-        self.pool = NamePool(rng)
+        self.pool = NamePool(rng, digits=self.cfg.digit_names)
         self.enum_member_tags: set = set()
 
     # -- enums -------------------------------------------------------------
@@ -195,7 +199,11 @@ class SchemaGen:
             if nb > budget:
                 continue
             budget -= nb
-            fl = Field(self.pool.snake(used_fields), t, numbers[k], parent=m)
+            fname = self.pool.snake(used_fields)
+            if cfg.keyword_field and "type" not in used_fields and rng.random() < cfg.keyword_field:
+                fname = "type"
+                used_fields.add("type")
+            fl = Field(fname, t, numbers[k], parent=m)
             if rng.random() < cfg.comments / 2:
                 fl.comment = "field note"
             m.items.append(fl)
@@ -228,6 +236,9 @@ class SchemaGen:
             f.add(Option("c.name_prefix", rng.choice(["my_prefix_", "Ab", "xq_", "Zz"])))
         if rng.random() < cfg.packing:
             f.add(Option("c.struct_packing_alignment", rng.choice([1, 2, 4, 8])))
+        if rng.random() < cfg.module_options:
+            f.add(Option("py.module_name", f"{f.basename}_bp"))
+            f.add(Option("go.package_path", f"example.com/gen/{f.proto_name}_bp"))
         n_top = rng.randint(*cfg.n_top)
         kinds = []
         for _ in range(n_top):
@@ -235,7 +246,7 @@ class SchemaGen:
         while kinds.count("message") < (cfg.min_messages if is_main else 0):
             kinds.append("message")
         for kind in kinds:
-            usable = [d for d in avail if not (isinstance(d, Enum) and not d.members)]
+            usable = [d for d in avail if cfg.empty_enum_fields or not (isinstance(d, Enum) and not d.members)]
             if kind == "const":
                 r = rng.random()
                 if r < 0.6:
